@@ -70,6 +70,14 @@ Theorem C16_sequences : forall (X V : Type) (dX : X) (dV : V) ops (s : sset X V)
   = map (row_at X V dX dV s) (compose_idx ops (seq 0 (length (a_x _ _ s)))).
 Proof. exact ops_refine_top. Qed.
 
+(* ... and what the set carries as a whole — temperature, attached evidence — is carried by the union of its pieces (repair F64:
+   concatenate keeps a carried value on which every piece agrees) *)
+Theorem C16_concat_partition_carries_scalars : forall (X V : Type) (dX : X) (dV : V) (veqb : V -> V -> bool) idx1 idx2 (s : sset X V),
+  (forall v, veqb v v = true) ->
+  let r := concat2c X V veqb (getitem X V dX dV (IList idx1) s) (getitem X V dX dV (IList idx2) s) in
+  a_beta _ _ r = a_beta _ _ s /\ a_le _ _ r = a_le _ _ s /\ a_lee _ _ r = a_lee _ _ s.
+Proof. exact concat2c_getitem_scalars. Qed.
+
 (* concatenation never misaligns rows, whatever optional fields the two sets carry: a field survives only when BOTH have it *)
 Theorem C16_concat_keeps_rows_aligned : forall (X V : Type) (a b : sset X V),
   wf X V a -> wf X V b -> wf X V (concat2 X V a b).
@@ -80,5 +88,6 @@ Print Assumptions C16_select_unweighted_carries_evidence.
 Print Assumptions C16_select_ess_of_selection.
 Print Assumptions C16_rows_aligned.
 Print Assumptions C16_concat_partition.
+Print Assumptions C16_concat_partition_carries_scalars.
 Print Assumptions C16_concat_keeps_rows_aligned.
 Print Assumptions C16_sequences.
